@@ -1778,3 +1778,65 @@ M('c11-any-three-digits-are-a-code', 'C11', 'fire:N8',
 M('c11-twin-code-class-as-range-list', 'C11', 'silent',
   (IOF, '''reply_line_pattern = re.compile(br'(([1-5]\\d\\d)([ \\t-])(.*?))\\r?\\n')''',
    '''reply_line_pattern = re.compile(br'(([12345][0-9][0-9])([ \\t-])(.*?))\\r?\\n')''', 1))
+
+# ================================================================= C17
+M('c17-esc-class-from-peer', 'C17', 'fire:W1',
+  (RP, '''                return '.'.join((code_0, self._esc[1], self._esc[2]))''',
+   '''                return '.'.join(self._esc)''', 1))
+M('c17-twin-esc-format', 'C17', 'silent',
+  (RP, '''                return '.'.join((code_0, '0', '0'))''',
+   '''                return code_0 + '.0.0\'''', 1))
+M('c17-continuation-marker-equals', 'C17', 'fire:W2',
+  (IOF, '''            to_send.write(b''.join((code, b'-', line, b'\\r\\n')))''',
+   '''            to_send.write(b''.join((code, b'=', line, b'\\r\\n')))''', 1))
+M('c17-final-line-with-dash', 'C17', 'fire:W2',
+  (IOF, '''        to_send.write(b''.join((code, b' ', lines[-1], b'\\r\\n')))''',
+   '''        to_send.write(b''.join((code, b'-', lines[-1], b'\\r\\n')))''', 1))
+M('c17-lines-end-with-cr', 'C17', 'fire:W2',
+  (IOF, '''        to_send.write(b''.join((code, b' ', lines[-1], b'\\r\\n')))''',
+   '''        to_send.write(b''.join((code, b' ', lines[-1], b'\\r')))''', 1))
+M('c17-twin-bare-lf-terminator', 'C17', 'silent',
+  (IOF, '''            to_send.write(b''.join((code, b'-', line, b'\\r\\n')))''',
+   '''            to_send.write(b''.join((code, b'-', line, b'\\n')))''', 1))
+M('c17-mixed-codes-accepted', 'C17', 'fire:W3',
+  (IOF, '''                    if code and code != match.group(2):
+                        raise BadReply(match.group(1))
+''', '', 1))
+M('c17-garbage-line-skipped', 'C17', 'fire:W3',
+  (IOF, '''                        message_lines.append(match.group(1))
+                        raise BadReply(b'\\r\\n'.join(message_lines))''',
+   '''                        start_i = match.end(0)
+                        continue''', 1))
+M('c17-decode-error-escapes', 'C17', 'fire:W3',
+  (IOF, '''        except UnicodeDecodeError:
+            raise BadReply(b'\\r\\n'.join(message_lines))''',
+   '''        except UnicodeEncodeError:
+            raise BadReply(b'\\r\\n'.join(message_lines))''', 1))
+M('c17-any-digits-code', 'C17', 'fire:W3',
+  (IOF, '''reply_line_pattern = re.compile(br'(([1-5]\\d\\d)([ \\t-])(.*?))\\r?\\n')''',
+   '''reply_line_pattern = re.compile(br'((\\d\\d\\d)([ \\t-])(.*?))\\r?\\n')''', 1))
+M('c17-scan-position-stuck', 'C17', 'fire:W4',
+  (IOF, '''                    else:
+                        start_i = match.end(0)''',
+   '''                    else:
+                        start_i = match.start(0)''', 1))
+M('c17-spin-on-incomplete', 'C17', 'fire:W4',
+  (IOF, '''            if incomplete:
+                self.buffered_recv()
+                input = self.recv_buffer''',
+   '''            if incomplete and not message_lines:
+                self.buffered_recv()
+            input = self.recv_buffer''', 1))
+M('c17-recorded-not-consumed', 'C17', 'fire:W5',
+  (IOF, '''                    message_lines.append(match.group(4))
+                    self.recv_buffer = input[match.end(0):]
+''', '''                    message_lines.append(match.group(4))
+''', 1),
+  (IOF, '''                    if match.group(3) != b'-':
+                        incomplete = False
+                        start_i = None''', '''                    if match.group(3) != b'-':
+                        incomplete = False
+                        start_i = None
+                        self.recv_buffer = input[match.end(0):]''', 1))
+M('c17-twin-flag-renamed', 'C17', 'silent',
+  (IOF, '''incomplete''', '''more_lines''', 4))
